@@ -56,13 +56,28 @@ Record impl_def := mkImpl {
   im_statics : list name                 (* `static int n = 0;` inside the impl block *)
 }.
 
+(* initialiser expressions of exported variables (evaluated AT IMPORT TIME, interpreter.cpp:1579-1626:
+   expression_evaluator_->evaluate_typed_expression(stmt->init_expr) against the interpreter's CURRENT
+   global scope) and bodies of side-effect-free functions `int f(int a) { return <expr>; }`.
+   A call is late-bound: the name is looked up in global_scope.functions when the call is evaluated;
+   [cands] lists the body of every function declaration (AST node id, `return` expression) that
+   carries that name anywhere in the file system - the closed-world stand-in for dereferencing the
+   AST node pointer the table holds. *)
+Inductive expr :=
+| ELit (v : nat)
+| EParam                                             (* the parameter `a` of the enclosing function *)
+| EVar (x : name)                                    (* a global variable / constant, plain or `m.x` *)
+| EEnum (en m : name)                                (* En::M *)
+| EAdd (a b : expr)
+| ECall (f : name) (cands : list (nat * expr)) (arg : expr).
+
 Inductive decl :=
 | DFunc (n : name) (body : nat)
 | DStruct (n : name) (d : sdef)                      (* AST_STRUCT_DECL / AST_GENERIC_STRUCT_DECL *)
 | DInterface (n : name) (methods : list name)
 | DImpl (d : impl_def)
 | DTypedef (n : name) (target : name)
-| DVar (n : name) (is_const : bool) (init : option nat)   (* AST_VAR_DECL *)
+| DVar (n : name) (is_const : bool) (init : option expr)  (* AST_VAR_DECL; the initialiser is evaluated on import *)
 | DEnum (n : name) (members : list (name * nat))
 | DOther (n : name).                                 (* any other node type (array declaration ...) *)
 
@@ -124,8 +139,49 @@ Definition empty_tables : tables := mkT [] [] [] [] [] [] [] [] [] [] [].
 Inductive error :=
 | EOpen (module_path file_path : name)               (* "Failed to open module file: p (searched: fp)" *)
 | EConflict (method sname : name)                    (* "Method name conflict: method 'm' ... for type 's'" *)
-| EDepth (module_path : name).                       (* model only: recursion bound of [handle_import] exhausted *)
+| EDepth (module_path : name)                        (* model only: recursion bound of [handle_import] exhausted *)
+| EUndefVar (x : name)                               (* "Undefined variable: x" while an initialiser is evaluated *)
+| EUndefFunc (f : name)                              (* "Undefined function: f" *)
+| EUndefEnum (en m : name)                           (* enum / member not known *)
+| ENoBody (f : name).                                (* model only: the bound node is not among the call's candidates *)
 Inductive result := Ok (t : tables) | Err (e : error).
+
+(* ----- evaluation of an initialiser against the current tables *)
+Inductive ev := VOk (v : nat) | VErr (e : error).
+(* the body among [cands] that belongs to AST node b *)
+Definition pick_body (evb : expr -> ev) (f : name) (b : nat) : list (nat * expr) -> ev :=
+  fix pick (l : list (nat * expr)) : ev :=
+    match l with
+    | [] => VErr (ENoBody f)
+    | (b', body) :: r => if Nat.eqb b b' then evb body else pick r
+    end.
+Fixpoint eval (t : tables) (param : nat) (e : expr) {struct e} : ev :=
+  match e with
+  | ELit v => VOk v
+  | EParam => VOk param
+  | EVar x => match lookup x (vars t) with
+              | Some (_, Some v) => VOk v
+              | Some (_, None) => VOk 0              (* a global without initialiser holds 0 *)
+              | None => VErr (EUndefVar x)
+              end
+  | EEnum en m => match lookup en (enums t) with
+                  | Some ms => match lookup m ms with Some v => VOk v | None => VErr (EUndefEnum en m) end
+                  | None => VErr (EUndefEnum en m)
+                  end
+  | EAdd a b => match eval t param a with
+                | VOk x => match eval t param b with VOk y => VOk (x + y) | VErr er => VErr er end
+                | VErr er => VErr er
+                end
+  | ECall f cands arg =>
+      match eval t param arg with
+      | VOk x =>
+          match lookup f (funcs t) with              (* late binding: the function table as it is NOW *)
+          | None => VErr (EUndefFunc f)
+          | Some b => pick_body (fun body => eval t x body) f b cands   (* the node body with a := x *)
+          end
+      | VErr er => VErr er
+      end
+  end.
 
 (* primitive table updates; every registration below is a list of these *)
 Inductive op :=
@@ -140,7 +196,8 @@ Inductive op :=
 | OImpl (d : impl_def)
 | OStatic (i s v : name)
 | OLoaded (p : name)
-| OFail (e : error).                                  (* throw std::runtime_error: the program ends, exit 1 *)
+| OFail (e : error)                                   (* throw std::runtime_error: the program ends, exit 1 *)
+| OInit (ks : list name) (c : bool) (e : expr).       (* evaluate e NOW, bind every k in ks to the value *)
 
 (* ----- register_impl_definition *)
 Definition same_key (i s : name) (e : impl_def) : bool :=
@@ -171,6 +228,10 @@ Definition bind_all {V : Type} (ws : list (name * V)) (m : amap V) : amap V :=
 
 Definition set_funcs (t : tables) (x : amap nat) : tables :=
   mkT x (structs t) (ifaces t) (typedefs t) (vars t) (enums t) (impls t) (ctors t) (dtors t) (istatics t) (loaded t).
+Definition set_vars (t : tables) (x : amap (bool * option nat)) : tables :=
+  mkT (funcs t) (structs t) (ifaces t) (typedefs t) x (enums t) (impls t) (ctors t) (dtors t) (istatics t) (loaded t).
+Definition init_binds (ks : list name) (c : bool) (v : nat) : list (name * (bool * option nat)) :=
+  map (fun k => (k, (c, Some v))) ks.
 Definition set_impls (t : tables) (x : list impl_def) : tables :=
   mkT (funcs t) (structs t) (ifaces t) (typedefs t) (vars t) (enums t) x (ctors t) (dtors t) (istatics t) (loaded t).
 
@@ -181,6 +242,11 @@ Definition apply_op (t : tables) (o : op) : result :=
   | OIface k ms => Ok (mkT (funcs t) (structs t) (bind k ms (ifaces t)) (typedefs t) (vars t) (enums t) (impls t) (ctors t) (dtors t) (istatics t) (loaded t))
   | OTypedef k x => Ok (mkT (funcs t) (structs t) (ifaces t) (bind k x (typedefs t)) (vars t) (enums t) (impls t) (ctors t) (dtors t) (istatics t) (loaded t))
   | OVar k c v => Ok (mkT (funcs t) (structs t) (ifaces t) (typedefs t) (bind k (c, v) (vars t)) (enums t) (impls t) (ctors t) (dtors t) (istatics t) (loaded t))
+  | OInit ks c e =>                                  (* evaluate_typed_expression(init_expr), then variables[k] = var *)
+      match eval t 0 e with
+      | VOk v => Ok (set_vars t (bind_all (init_binds ks c v) (vars t)))
+      | VErr er => Err er
+      end
   | OEnum k ms =>                                    (* EnumManager::register_enum: "already exists" -> return *)
       match lookup k (enums t) with
       | Some _ => Ok t
@@ -234,7 +300,8 @@ Definition import_decl_ops (module_path : name) (d : decl) : list op :=
   | DVar n c init =>
       match c, init with
       | true, None => []                             (* const without initialiser: nothing registered *)
-      | _, _ => [OVar n c init; OVar (qualified module_path n) c init]
+      | _, None => [OVar n c None; OVar (qualified module_path n) c None]
+      | _, Some e => [OInit [n; qualified module_path n] c e]   (* evaluated once, stored under both names *)
       end
   | DEnum n ms => [OEnum n ms]
   | DOther _ => []
@@ -319,7 +386,8 @@ Definition local_decl_ops (d : decl) : list op :=
   | DInterface n ms => [OIface n ms]
   | DImpl i => local_impl_ops i
   | DTypedef n x => [OTypedef n x]
-  | DVar n c init => [OVar n c init]
+  | DVar n c None => [OVar n c None]
+  | DVar n c (Some e) => [OInit [n] c e]
   | DEnum n ms => [OEnum n ms]
   | DOther _ => []
   end.
